@@ -6,6 +6,16 @@ NOTES = ('All checks are ./check <id>; each rebuilds a source-only overlay from 
 NOT_CLAIMED = {}
 
 PROPS = {
+    'C17': {
+        'modules': ['contracts.C17_websocket'],
+        'level': 'proof',
+        'level_text': 'Session monitor over every event handed to the server send (CONNECTING/OPEN/CLOSED/LOST, send may fail at every event) plus a typestate '
+                      'invariant linking WebSocket._state to it, assumed at entry and proved at exit of every public method (accept, close, send_*, receive_*, '
+                      'properties, __init__) with the documented error per (state, operation); close-code table; app level _handle_websocket with the real error '
+                      'handlers inlined: 3404 / 3405 / 3000+status / error_close_code / 3011 fallback / 1011 abandoned handshake.',
+        'level_note': 'Server errors are five representative exception shapes (classification by message text is regex-based). _BufferedReceiver is a stub here '
+                      '(C18). Three recorded known findings (close() on a lost connection; custom error handler that does not close).',
+    },
     'C04': {
         'modules': ['contracts.C04_errors'],
         'level': 'proof',
